@@ -7,7 +7,9 @@ package storage
 import (
 	"context"
 	"fmt"
+	"sync"
 	"testing"
+	"time"
 
 	"github.com/tokenized/pkg/bitcoin"
 	"github.com/tokenized/pkg/wire"
@@ -19,10 +21,12 @@ import (
 
 // C09Op is one operation of a C09 scenario.
 type C09Op struct {
-	Op string `json:"op"` // add until revert save savereload query fault-revert
-	N  int    `json:"n"`  // add: count; until/revert: height; fault-revert: target height
+	Op string `json:"op"` // add until revert save savereload query fault-revert window-revert
+	N  int    `json:"n"`  // add: count; until/revert: height; fault-revert/window-revert: target height
 	F  int    `json:"f"`  // fault-revert: the F-th storage operation of kind K (within the revert) fails
-	K  string `json:"k,omitempty"`
+	// window-revert: while the revert is inside its F-th storage operation, a second goroutine
+	// calls K (add | hash | save) on the same repository
+	K string `json:"k,omitempty"`
 }
 
 // C09Scenario is a full scenario.
@@ -207,6 +211,13 @@ func c09Run(sc *C09Scenario) (*c09Violation, map[string]bool) {
 			if w.tip() >= 1000 {
 				w.flags["reload-multifile"] = true
 			}
+		case "window-revert":
+			v, nowSaved := w.windowRevert(op, where, saved)
+			if v != nil {
+				return v, w.flags
+			}
+			saved = nowSaved
+			continue
 		case "revert", "fault-revert":
 			t := op.N
 			before := w.tip()
@@ -270,9 +281,163 @@ func c09Run(sc *C09Scenario) (*c09Violation, map[string]bool) {
 	return nil, w.flags
 }
 
+// c09WindowWait is how long the revert is held inside a storage operation to give the second
+// goroutine the chance to run. It only bounds how long a wrongly unlocked repository has to show
+// itself; on a repository that holds its lock the second goroutine simply runs after the revert.
+const c09WindowWait = 40 * time.Millisecond
+
+// windowRevert runs Revert(op.N) and, while the revert is inside its op.F-th storage operation,
+// lets a second goroutine call Add / Hash / Save on the same repository. The repository's
+// operations are atomic towards each other, so the outcome has to be that of one of the two serial
+// orders; every query is then compared with the list of that order.
+func (w *c09World) windowRevert(op C09Op, where string, saved bool) (*c09Violation, bool) {
+	t, before := op.N, w.tip()
+	if t > before {
+		t = before
+	}
+	if t < 0 {
+		t = 0
+	}
+	w.flags["window"] = true
+	if t/1000 != before/1000 {
+		w.flags["revert-across-file"] = true
+		w.flags["window-across-file"] = true
+	}
+	if !saved {
+		w.flags["revert-unsaved"] = true
+	}
+	w.counter++
+	x := c09Header(*w.model[before].BlockHash(), w.counter)
+	rctx := context.WithValue(w.ctx, verifkit.RoleKey, "revert")
+	octx := context.WithValue(w.ctx, verifkit.RoleKey, "other")
+	type result struct {
+		err  error
+		hash *bitcoin.Hash32
+		pan  interface{}
+	}
+	done := make(chan result, 1)
+	other := func() {
+		var r result
+		defer func() {
+			if p := recover(); p != nil {
+				r.pan = p
+			}
+			done <- r
+		}()
+		switch op.K {
+		case "hash":
+			r.hash, r.err = w.repo.Hash(octx, t)
+		case "save":
+			r.err = w.repo.Save(octx)
+		default:
+			r.err = w.repo.Add(octx, &x)
+		}
+	}
+	var mu sync.Mutex
+	cnt, started, inside := 0, false, false
+	var early *result
+	w.st.SetGate(func(c context.Context, o, key string) {
+		if r, _ := c.Value(verifkit.RoleKey).(string); r != "revert" {
+			return
+		}
+		mu.Lock()
+		cnt++
+		fire := cnt == op.F && !started
+		if fire {
+			started = true
+		}
+		mu.Unlock()
+		if !fire {
+			return
+		}
+		go other()
+		select {
+		case r := <-done:
+			early, inside = &r, true
+		case <-time.After(c09WindowWait):
+		}
+	})
+	var rerr error
+	v := c09Guard(func() *c09Violation { rerr = w.repo.Revert(rctx, t); return nil }, where+": Revert")
+	w.st.SetGate(nil)
+	if v != nil {
+		return v, saved
+	}
+	if !started {
+		go other() // the revert had fewer storage operations: plain serial order
+	} else {
+		w.flags["window-reached"] = true
+	}
+	var r result
+	if early != nil {
+		r = *early
+	} else {
+		select {
+		case r = <-done:
+		case <-time.After(60 * time.Second):
+			return &c09Violation{"C09/window/hang", fmt.Sprintf("%s: %s called during Revert(%d) did not return", where, op.K, t)}, saved
+		}
+	}
+	if inside {
+		w.flags["window-ran-inside"] = true
+	}
+	if r.pan != nil {
+		return &c09Violation{"C09/window/panic", fmt.Sprintf("%s: %s called during Revert(%d) panicked: %v", where, op.K, t, r.pan)}, saved
+	}
+	base := w.model
+	if rerr == nil {
+		base = w.model[:t+1]
+		saved = true
+	} else {
+		w.flags["revert-failed"] = true
+	}
+	var cands [][]wire.BlockHeader
+	switch op.K {
+	case "hash":
+		if r.err != nil || r.hash == nil || *r.hash != *w.model[t].BlockHash() {
+			return &c09Violation{"C09/window/hash", fmt.Sprintf("%s: Hash(%d) called during Revert(%d) from tip %d: err=%v or a hash that is not the list's", where, t, t, before, r.err)}, saved
+		}
+		cands = append(cands, base)
+	case "save":
+		if r.err != nil {
+			return &c09Violation{"C09/window/save", fmt.Sprintf("%s: Save called during Revert(%d) from tip %d failed: %v", where, t, before, r.err)}, saved
+		}
+		cands = append(cands, base)
+	default:
+		w.ever[*x.BlockHash()] = true
+		follows := *base[len(base)-1].BlockHash() == x.PrevBlock
+		if r.err == nil {
+			saved = false
+			if follows { // revert, then add
+				cands = append(cands, append(append([]wire.BlockHeader{}, base...), x))
+			}
+			if rerr == nil { // add, then revert
+				cands = append(cands, base)
+			}
+		} else {
+			if follows {
+				return &c09Violation{"C09/window/add-refused", fmt.Sprintf("%s: Add of the header following the tip, called during Revert(%d) from tip %d, failed: %v", where, t, before, r.err)}, saved
+			}
+			cands = append(cands, base)
+		}
+	}
+	var first *c09Violation
+	for _, c := range cands {
+		w.model = c
+		cv := w.check(fmt.Sprintf("%s (%s called during the revert's storage operation %d; revert err=%v, %s err=%v)", where, op.K, op.F, rerr, op.K, r.err), []int{t, t + 1, t - 1, before})
+		if cv == nil {
+			return nil, saved
+		}
+		if first == nil {
+			first = cv
+		}
+	}
+	return &c09Violation{"C09/window/" + first.key[len("C09/"):], first.what}, saved
+}
+
 func c09Nontrivial(f map[string]bool) bool { return f["revert-across-file"] || f["revert-unsaved"] }
 
-const c09Rule = "operation sequences over {add k, add-until boundary height, revert(t), save, save+reload, revert with the f-th storage operation failing} on a BlockRepository over an in-memory store, both behaviours for deleting a missing key; heights concentrated on 0, 1000k-1, 1000k, 1000k+1 and the tip; after every operation all queries are compared with a Go slice of headers; non-trivial = contains a revert across a file boundary or on an unsaved newest file; distinct by scenario hash"
+const c09Rule = "operation sequences over {add k, add-until boundary height, revert(t), save, save+reload, revert with the f-th storage operation failing, revert with a second goroutine calling add|hash|save while the revert is held in its f-th storage operation (outcome must be that of one of the two serial orders)} on a BlockRepository over an in-memory store, both behaviours for deleting a missing key; heights concentrated on 0, 1000k-1, 1000k, 1000k+1 and the tip; after every operation all queries are compared with a Go slice of headers; non-trivial = contains a revert across a file boundary or on an unsaved newest file; distinct by scenario hash"
 
 func genC09(t *rapid.T) *C09Scenario {
 	sc := &C09Scenario{RemoveMissingOK: rapid.Bool().Draw(t, "rmok")}
@@ -280,7 +445,7 @@ func genC09(t *rapid.T) *C09Scenario {
 	n := rapid.IntRange(1, 14).Draw(t, "n")
 	tip := 0
 	for i := 0; i < n; i++ {
-		kind := rapid.SampledFrom([]string{"add", "add", "until", "until", "revert", "revert", "revert", "save", "savereload", "savereload", "fault-revert"}).Draw(t, "op")
+		kind := rapid.SampledFrom([]string{"add", "add", "until", "until", "revert", "revert", "revert", "save", "savereload", "savereload", "fault-revert", "window-revert"}).Draw(t, "op")
 		op := C09Op{Op: kind}
 		switch kind {
 		case "add":
@@ -291,7 +456,7 @@ func genC09(t *rapid.T) *C09Scenario {
 			if op.N > tip {
 				tip = op.N
 			}
-		case "revert", "fault-revert":
+		case "revert", "fault-revert", "window-revert":
 			switch rapid.IntRange(0, 5).Draw(t, "tk") {
 			case 0:
 				op.N = tip
@@ -313,8 +478,15 @@ func genC09(t *rapid.T) *C09Scenario {
 				op.K = rapid.SampledFrom([]string{"write", "write", "remove", "remove", "read"}).Draw(t, "fk")
 				op.F = rapid.IntRange(1, 3).Draw(t, "f")
 			}
+			if kind == "window-revert" {
+				if op.N > tip {
+					op.N = tip
+				}
+				op.K = rapid.SampledFrom([]string{"add", "add", "hash", "save"}).Draw(t, "wk")
+				op.F = rapid.IntRange(1, 4).Draw(t, "wf")
+			}
 			if op.N <= tip {
-				tip = op.N
+				tip = op.N // an estimate only: the run clamps targets to the real tip
 			}
 		}
 		sc.Ops = append(sc.Ops, op)
@@ -411,6 +583,55 @@ func TestC09Triples(t *testing.T) {
 						seen[v.key] = true
 						rep.AddViolation(v.key, v.what, sc)
 						t.Errorf("%s: %s", v.key, v.what)
+					}
+				}
+			}
+		}
+	}
+	rep.Exhaustive = true
+}
+
+// TestC09Window enumerates reverts with a second goroutine calling Add / Hash / Save while the
+// revert is inside one of its first storage operations, over heights and targets around the file
+// boundaries (a revert below the newest file reads older files while it collects the hashes it
+// removes).
+func TestC09Window(t *testing.T) {
+	rep := verifkit.NewReport("C09", "TestC09Window", c09Rule+"; window sub-run: all (height, saved?, target, storage operation 1..3 of the revert, concurrent call add|hash|save) over heights {2,1001,1002,2001}")
+	defer rep.Finish(t)
+	if verifkit.ReplayFile("TestC09Window") != "" {
+		c09Replay(t, rep, verifkit.ReplayFile("TestC09Window"))
+		return
+	}
+	seen := map[string]bool{}
+	n := 0
+	for _, h := range []int{2, 1001, 1002, 2001} {
+		for _, saved := range []bool{false, true} {
+			for _, tgt := range []int{0, 998, 999, 1000, 1001, 1999, 2000, h - 1, h} {
+				if tgt > h || tgt < 0 {
+					continue
+				}
+				for f := 1; f <= 3; f++ {
+					for _, k := range []string{"add", "hash", "save"} {
+						sc := &C09Scenario{RemoveMissingOK: n%2 == 0, Ops: []C09Op{{Op: "until", N: h}}}
+						if saved {
+							sc.Ops = append(sc.Ops, C09Op{Op: "save"})
+						}
+						sc.Ops = append(sc.Ops, C09Op{Op: "window-revert", N: tgt, F: f, K: k}, C09Op{Op: "savereload"}, C09Op{Op: "add", N: 2})
+						v, fl := c09Run(sc)
+						n++
+						rep.Case(uint64(n), fl["window-reached"], c09Labels(fl)...)
+						if fl["window-reached"] && rep.WantSample() && n%29 == 0 {
+							rep.Sample(sc)
+						}
+						if v != nil && !seen[v.key] {
+							if verifkit.Known(v.key) {
+								rep.Exclude(v.key)
+								continue
+							}
+							seen[v.key] = true
+							rep.AddViolation(v.key, v.what, sc)
+							t.Errorf("%s: %s", v.key, v.what)
+						}
 					}
 				}
 			}
